@@ -366,10 +366,22 @@ def rule_lit(ctx: Ctx) -> RuleResult:
     ot = prog.func("json_to_models/generator.py", "MetadataGenerator.optimize_type")
     rr.instances += 1
     ok = False
+    def _either(test: ast.AST) -> bool:
+        """`X.overflowed or not X.literals`, alone or as one conjunct (`isinstance(X, StringLiteral) and (...)`)"""
+        if isinstance(test, ast.BoolOp) and isinstance(test.op, ast.And):
+            return any(_either(v) for v in test.values)
+        if isinstance(test, ast.BoolOp) and isinstance(test.op, ast.Or):
+            at = {norm(v) for v in test.values}
+            return any(a.endswith(".overflowed") and not a.startswith("not ") for a in at) and any(
+                a.startswith("not ") and a.endswith(".literals") for a in at) and len(at) == 2
+        return False
     for n in walk_no_nested(ot.node):
         if isinstance(n, ast.If) and "overflowed" in norm(n.test) and "literals" in norm(n.test) and any(
                 isinstance(x, ast.Return) and norm(x.value) == "str" for x in n.body):
-            ok = isinstance(n.test, ast.BoolOp) and isinstance(n.test.op, ast.Or)
+            ok = _either(n.test)
+        # the same rule as a conditional expression: `return str if X.overflowed or not X.literals else X`
+        if isinstance(n, ast.Return) and isinstance(n.value, ast.IfExp) and norm(n.value.body) == "str" and _either(n.value.test):
+            ok = True
     rr.ob(ot.relpath, ot.qualname, "if meta.overflowed or not meta.literals: return str", "an overflowed or empty literal "
           "set is typed str", DISCHARGED if ok else VIOLATED, "found" if ok else "rule missing or weakened", ot.node.lineno)
     return rr
@@ -613,6 +625,13 @@ def _simulate(p: Path):
                 n = len(dicts[l.args[0].id])
                 return {ast.Eq: n == r.value, ast.NotEq: n != r.value, ast.Gt: n > r.value, ast.Lt: n < r.value,
                         ast.GtE: n >= r.value, ast.LtE: n <= r.value}.get(type(op))
+            if isinstance(l, ast.Call) and norm(l.func) in ("list", "tuple") and len(l.args) == 1 and isinstance(op, (ast.Eq, ast.NotEq)) \
+                    and isinstance(r, (ast.List, ast.Tuple)) and all(isinstance(e, ast.Constant) for e in r.elts) \
+                    and isinstance(r, ast.List) == (norm(l.func) == "list"):
+                for nm, keys in dicts.items():
+                    if keys is not None and norm(l.args[0]) in (nm, f"{nm}.keys()"):
+                        same = list(keys) == [e.value for e in r.elts]
+                        return same if isinstance(op, ast.Eq) else not same
             if isinstance(l, ast.Call) and norm(l.func) == "next" and isinstance(r, ast.Constant):
                 for nm, keys in dicts.items():
                     if keys is not None and norm(l) in (f"next(iter({nm}.keys()))", f"next(iter({nm}))"):
@@ -808,7 +827,16 @@ def rule_sib1(ctx: Ctx, include_sort: bool = True) -> RuleResult:
     # fields property passes bool(group index) as `optional`
     fp = prog.func(BASE, "GenericModelCodeGenerator.fields")
     rr.instances += 1
-    ok = any(isinstance(n, ast.For) and norm(n.iter) == "enumerate((required, optional))" for n in walk_no_nested(fp.node)) and \
+    def _groups(it: ast.AST) -> bool:
+        # enumerate((required, optional)), or the pairs written out: ((False, required), (True, optional)) / (0, ..), (1, ..)
+        if norm(it) in ("enumerate((required, optional))", "enumerate([required, optional])"):
+            return True
+        if isinstance(it, (ast.Tuple, ast.List)) and len(it.elts) == 2 and all(isinstance(e, ast.Tuple) and len(e.elts) == 2 for e in it.elts):
+            (f0, g0), (f1, g1) = it.elts[0].elts, it.elts[1].elts
+            return norm(g0) == "required" and norm(g1) == "optional" and isinstance(f0, ast.Constant) and isinstance(f1, ast.Constant) \
+                and not f0.value and f1.value is not None and bool(f1.value)
+        return False
+    ok = any(isinstance(n, ast.For) and _groups(n.iter) for n in walk_no_nested(fp.node)) and \
         any(isinstance(n, ast.Call) and norm(n.func) == "self.field_data" and len(n.args) == 3 and
             norm(n.args[2]) in ("bool(is_optional)", "is_optional == 1") for n in walk_no_nested(fp.node))
     rr.ob(fp.relpath, fp.qualname, "field_data(field, type, bool(is_optional))", "the optional flag given to field_data is "
